@@ -312,6 +312,24 @@ func extraTypes(cfg *Config, r *hx.Rng) ([]*TR, []string) {
 			if len(newObjs) > 0 && r.Chance(1, 2) {
 				t.Fields = append(t.Fields, fieldOf("prev", Ref(newObjs[r.Intn(len(newObjs))])))
 			}
+			// covariance through a possible type that is itself new (reachable only through this implementer)
+			for fi := range t.Fields {
+				leaf := t.Fields[fi].Type.leaf()
+				if leaf >= nBuiltin && cfg.kindOf(leaf) == "INTERFACE" && r.Chance(1, 2) {
+					y := TypeC{Kind: "OBJECT", Name: fmt.Sprintf("%sP%d", name, fi), Refs: []*int{ip(leaf)}, Resolver: true}
+					for _, f := range cfg.typ(leaf).Fields {
+						nf := FieldC{Name: f.Name, Present: true, Type: f.Type.clone(), Args: []ArgC{}}
+						for _, a := range f.Args {
+							nf.Args = append(nf.Args, ArgC{Name: a.Name, Present: true, Type: a.Type.clone()})
+						}
+						y.Fields = append(y.Fields, nf)
+					}
+					c := t.Fields[fi].Type.clone()
+					replaceLeaf(c, cfg.add(y))
+					t.Fields[fi].Type = c
+					tags = append(tags, "append:covariant-new-possible-type")
+				}
+			}
 			id := cfg.add(t)
 			newObjs = append(newObjs, id)
 			xs = append(xs, Ref(id))
@@ -374,7 +392,7 @@ func main() {
 	}
 	defer drv.Close()
 	h := &harness{run: run, drv: drv}
-	run.Res.Rule = "configurations = gen.SchemaGen output re-expressed as constructor calls (random thunk/direct forms, covariant implementers, unreachable types, custom directives) with 0, 1 or 2 single-aspect malformations out of 34 kinds (duplicate names across kinds and with built-ins, invalid names for every kind / member, empty and absent and unknown-typed member sets, nil members, nil / typed-nil types, List/NonNull of nil and NonNull of NonNull at any depth, kind mismatches, nine interface-conformance breaks, roots, scalars, unions, directives, defects behind thunk cycles or reachable only through Types) + 70 hand-written families; AppendType: every order of 1..4 extra types against supplying them up front; non-trivial = hand-written family, or >= 3 user types; distinct by (configuration, append order)"
+	run.Res.Rule = "configurations = gen.SchemaGen output re-expressed as constructor calls (random thunk/direct forms, covariant implementers, unreachable types, custom directives) with 0, 1 or 2 single-aspect malformations out of 37 kinds (duplicate names across kinds and with built-ins, invalid names for every kind / member, empty and absent and unknown-typed member sets, nil members, nil / typed-nil types, List/NonNull of nil and NonNull of NonNull at any depth, kind mismatches, nine interface-conformance breaks, roots, scalars, unions, directives, defects behind thunk cycles or reachable only through Types) + 76 hand-written families; AppendType: every order of 1..4 extra types against supplying them up front; non-trivial = hand-written family, or >= 3 user types; distinct by (configuration, append order)"
 
 	if run.ReplayIn != "" {
 		var rp struct {
@@ -395,7 +413,7 @@ func main() {
 			h.appendScenario(f.cfg, f.app, []string{"family-append"})
 		}
 	}
-	n := run.N(1800, 60000)
+	n := run.N(1400, 60000)
 	for i := 0; i < n && !run.TooManyViolations(); i++ {
 		r := hx.Fork(run.Seed, i)
 		cfg, tags := validBase(r)
@@ -415,7 +433,7 @@ func main() {
 		}
 		h.check(caseT{Config: cfg, Tags: tags}, len(cfg.Types) >= 3)
 	}
-	m := run.N(60, 2500)
+	m := run.N(45, 2500)
 	for i := 0; i < m && !run.TooManyViolations(); i++ {
 		r := hx.Fork(run.Seed, 1_000_000+i)
 		base, _ := validBase(r)
